@@ -216,6 +216,9 @@ def run(ctx):
     projects += plural_null_projects(rng, ctx.budget(300, 6000))
     projects += empty_value_projects(rng, ctx.budget(200, 4000))
     generic_pipeline_check(ctx, [("I18nVerif.Theorems.C03", "C03_")], projects, oracle, "C03")
+    # the feature `suppress_key_warnings` only silences diagnostics: the fallback (incl. `inherits`) is the same in that build
+    sup = rng.sample(corpus, ctx.budget(300, 3000)) + [proj.gen_project(rng, opts) for _ in range(ctx.budget(200, 2000))]
+    generic_pipeline_check(ctx, [], sup, oracle, "C03-suppress", suppress=True)
     # the generated `match locale { L::x | L::defaulted… => … }` of every accessor kind (string, interpolation, number / boolean literal,
     # range, plural, subkeys) compiled and run: a locale that falls back must be covered by an arm and render the effective locale's value
     from . import probe
